@@ -363,14 +363,29 @@ def _x_8(vc, kind, old, target):  # per-message replay flags -> flow-level is_re
         target["is_replay"] = None
 
 
-def _x_13(vc, kind, old, target):  # issue 4576: responses saved without timestamps get request.timestamp_end (+1)
-    if old.get("response") is None or not vc.case("response_without_timestamps", [False, True]):
+def _x_13(vc, kind, old, target):
+    """issue 4576: a response saved without its start timestamp gets request.timestamp_end (and an end one second later);
+    a response that has its start timestamp — finished or not (timestamp_end None) — is carried over unchanged"""
+    if old.get("response") is None:
+        return
+    shape = vc.case("response_timestamps", ["both", "none", "start_missing", "end_missing"])
+    if shape == "both":
         return
     te = vc.sym_int("request.timestamp_end", lo=0)
     old["request"]["timestamp_end"] = te
     target["request"]["timestamp_end"] = te
+    if shape == "end_missing":       # unfinished response: nothing to repair
+        ts = vc.sym_int("response.timestamp_start", lo=0)
+        old["response"]["timestamp_start"] = ts
+        old["response"]["timestamp_end"] = None
+        target["response"]["timestamp_start"] = ts
+        target["response"]["timestamp_end"] = None
+        return
     old["response"]["timestamp_start"] = None
-    old["response"]["timestamp_end"] = None
+    if shape == "none":
+        old["response"]["timestamp_end"] = None
+    else:
+        old["response"]["timestamp_end"] = vc.sym_int("response.timestamp_end", lo=0)
     target["response"]["timestamp_start"] = te
     target["response"]["timestamp_end"] = te + 1
 
@@ -920,6 +935,14 @@ def _old_variants(v):
             e["response"]["timestamp_start"] = e["request"]["timestamp_end"]
             e["response"]["timestamp_end"] = e["request"]["timestamp_end"] + 1
         out.append(("response_without_timestamps", ("http",), {}, no_resp_ts, exp2))
+
+        def no_resp_start(o):            # the issue-4576 shape proper: only the start is missing
+            o["response"]["timestamp_start"] = None
+        out.append(("response_without_timestamp_start", ("http",), {}, no_resp_start, exp2))
+
+        def no_resp_end(o):              # unfinished response: start known, end missing -> carried over unchanged
+            o["response"]["timestamp_end"] = None
+        out.append(("response_without_timestamp_end", ("http",), {}, no_resp_end, lambda e: e["response"].__setitem__("timestamp_end", None)))
     if v in ((0, 14), (0, 15)):
         out.append(("request_body_key", ("http", "http_noresp"), dict(request_body=True), None, None))
     if r <= B.rank(10) and r >= B.rank(10):
